@@ -26,10 +26,13 @@ pub(crate) fn update_backtracks<A>(dfa: &mut DFA<StateIdx, A>) {
         // Did we visit the state, with the right backtrack state?
         match visited.entry(state) {
             Entry::Occupied(mut entry) => {
-                if *entry.get() == backtrack {
+                // A state that is reachable after an accepting state needs to backtrack no matter
+                // how else it can be reached: once set, the flag stays set. (This also makes the
+                // analysis monotone, so it terminates.)
+                if *entry.get() || !backtrack {
                     continue;
                 }
-                entry.insert(backtrack);
+                entry.insert(true);
             }
             Entry::Vacant(entry) => {
                 entry.insert(backtrack);
